@@ -143,3 +143,16 @@ func fieldLoad(v ssa.Value) (base ssa.Value, field string, ok bool) {
 func short(s string) string { return strings.ReplaceAll(s, ir.Mod+"/", "") }
 
 func sprintf(f string, a ...interface{}) string { return fmt.Sprintf(f, a...) }
+
+// globalName: the name of the package-level variable v is loaded from ("" if none).
+func globalName(v ssa.Value) string {
+	u, ok := ir.Strip(v).(*ssa.UnOp)
+	if !ok {
+		return ""
+	}
+	g, ok := u.X.(*ssa.Global)
+	if !ok {
+		return ""
+	}
+	return g.Name()
+}
